@@ -162,10 +162,12 @@ AnnStr(a) ==
       [] a = "callable" -> "typing.Callable[[int], str]"
       [] a = "literal" -> "typing.Literal['a']"
       [] a = "newtype" -> "stubtypes.UserId"
-      [] a = "typevar" -> "~T"
+      [] a = "typevar" -> "T"
       [] a = "config" -> "cincoconfig.core.Config"
-\* annotation objects get_annotation_typestr has no branch for (get_retval_annotation swallows the error)
-Unrendered == {"union604", "newtype", "typevar"}
+\* annotation objects get_annotation_typestr has no branch for (get_retval_annotation swallows the
+\* error and the return annotation is dropped): none of the modelled kinds since the fix that
+\* renders PEP 604 unions, TypeVar and NewType
+Unrendered == {}
 
 ---------------------------------------------------------------------------
 (* parameter-list tokens *)
